@@ -122,6 +122,13 @@ Failed(e) ==
   \cup Chk("C06.readback",      (ph = "open" /\ e.ev = "Close" /\ kind # "flate") =>
              /\ e.std.ok /\ e.std.st = "done" /\ e.std.len = acc /\ e.std.hdr
              /\ e.fg.ok /\ e.fg.st = "done" /\ e.fg.len = acc /\ e.fg.hdr)
+  \* C18, compressor half: at whatever acceleration level the trace was recorded, Flush and Close
+  \* leave what the other properties demand (the check runs the same cases at every level)
+  \cup Chk("C18.compressor_output", (ph = "open" /\ e.ev \in {"Flush", "Close"}) =>
+             /\ Contentful(e) /\ e.ref.len = acc /\ e.std.ok /\ e.std.len = acc
+             /\ e.ref.maxd <= window
+             /\ (e.ev = "Flush" => e.ref.st = "more" /\ e.ref.tail = "sync" /\ e.std.st = "more")
+             /\ (e.ev = "Close" => e.ref.st = "done" /\ e.std.st = "done" /\ e.fg.ok /\ e.fg.st = "done" /\ e.fg.len = acc))
   \cup Chk("C20.expansion",     (ph = "open" /\ e.ev = "Close" /\ kind = "flate" /\ accel /\ flushes = 0) =>
              emitted + e.bytes <= acc + acc \div 32 + 256)
   \cup Chk("C20.repeats",       (ph = "open" /\ e.ev = "Close" /\ kind = "flate" /\ accel /\ flushes = 0
